@@ -279,7 +279,7 @@ static void run(long i, vh_rng *r)
     vd_cfg_default(&cfg, lang);
     cfg.compallsen = 1;
     cfg.cionly = vh_chance(r, 0.1);
-    if (vh_chance(r, 0.12)) { cfg.skip_tmat = 1; vh_count("scenarios_with_skip_transitions", 1); }   /* Bakis topology: the oracle takes the skip arcs wherever the matrices have them */
+    if (vh_chance(r, 0.16)) { cfg.skip_tmat = vh_chance(r, 0.5) ? 2 : 1; vh_count(cfg.skip_tmat == 2 ? "scenarios_with_skip_transitions_in_some_matrices_only" : "scenarios_with_skip_transitions", 1); }   /* Bakis topology: the oracle takes the skip arcs wherever the matrices have them */
     if (vh_chance(r, 0.1)) cfg.cmn = VH_PICK(r, ((const char *[]){ "batch", "none" }));
     d = vd_decoder(&cfg);
     if (!d) { vh_inconc("decoder_init failed"); return; }
